@@ -41,6 +41,7 @@ func main() {
 	hier3Sections(r)
 	twoDSections(r)
 	reoriented2(r)
+	tinySections(r)
 
 	r.Require("diag3.meshes", 1000)
 	r.Require("diag3.NeedsRepair.ref_true", 100)
